@@ -1,5 +1,1129 @@
 import ChemProofs.Model.Brain
 import ChemProofs.Spec.IsoDist
+/-
+C08 — purity of the caching pattern generator: a call on a reusable generator returns exactly what
+the stateless function returns, whatever was requested from the generator before.
+
+Main results
+ * `psN_take`, `updatePowerSum_prefix`, `updatePowerSum_steps`, `updatePowerSum_canon`, `nextPowerSum_pad`:
+   the Newton power sums are append-only and prefix-stable; zero padding of `esp` is invisible
+ * `update_canon`      : `Phi.update` keeps canonical constants canonical; afterwards index `≤ order` is in range
+ * `fromElement_canon` : the initial constants are canonical (elem and mass vectors have the same length)
+ * `variantsWith_congr`: the peaks depend on the constants only through the power sums `1..order`
+ * `step_sim`/`fold_sim`: `populateFromCache` simulates `populate` (same failure, or pointwise related constants)
+ * `call_pure`, `call_inv`: one call from an invariant cache = stateless result; the invariant is kept
+ * `history_pure` (`history_pure'`, `history_pure_anyfail`), `deterministic`
+ The only hypothesis on the elements is `SymInj` (one table in which the symbol determines the element).
+-/
 namespace Chem
-theorem placeholder_C08 : True := trivial
+
+/-! ### 0. `Res` plumbing -/
+
+theorem Res.bind_ok {α β} (a : α) (f : α → Res β) : (Res.ok a).bind f = f a := rfl
+theorem Res.bind_err {α β} (f : α → Res β) : (Res.err : Res α).bind f = .err := rfl
+theorem Res.bind_panic {α β} (f : α → Res β) : (Res.panic : Res α).bind f = .panic := rfl
+
+theorem Res.bind_eq_ok {α β} {r : Res α} {f : α → Res β} {b : β} :
+    r.bind f = .ok b ↔ ∃ a, r = .ok a ∧ f a = .ok b := by
+  cases r with
+  | ok a => simp only [Res.bind_ok]; constructor
+            · intro h; exact ⟨a, rfl, h⟩
+            · rintro ⟨a', h1, h2⟩; cases h1; exact h2
+  | err => simp only [Res.bind_err]; constructor
+           · intro h; cases h
+           · rintro ⟨a', h1, _⟩; cases h1
+  | panic => simp only [Res.bind_panic]; constructor
+             · intro h; cases h
+             · rintro ⟨a', h1, _⟩; cases h1
+
+/-! ### 1. canonical power sums: prefix stability of `updatePowerSum` -/
+
+/-- the `n` first Newton power sums of `esp` (reading `esp` beyond its end as 0) -/
+def psN (esp : DVec) : Nat → DVec
+  | 0 => []
+  | n + 1 => psN esp n ++ [nextPowerSum esp (psN esp n) n]
+
+/-- the `k`-th canonical power sum -/
+def psAt (esp : DVec) (k : Nat) : Rat := nextPowerSum esp (psN esp k) k
+
+theorem psN_length (esp : DVec) (n : Nat) : (psN esp n).length = n := by
+  induction n with
+  | zero => rfl
+  | succ n ih => simp [psN, ih]
+
+theorem psN_eq_map (esp : DVec) (n : Nat) : psN esp n = (List.range n).map (psAt esp) := by
+  induction n with
+  | zero => rfl
+  | succ n ih => rw [List.range_succ, List.map_append, ← ih]; rfl
+
+/-- prefixes agree: the first `n` power sums do not depend on how far the vector was extended -/
+theorem psN_take (esp : DVec) {n m : Nat} (h : n ≤ m) : (psN esp m).take n = psN esp n := by
+  rw [psN_eq_map, psN_eq_map, ← List.map_take, List.take_range, Nat.min_eq_left h]
+
+theorem psN_getD (esp : DVec) {n k : Nat} (h : k < n) : (psN esp n).getD k 0 = psAt esp k := by
+  rw [psN_eq_map]
+  simp [List.getD_eq_getElem?_getD, h]
+
+theorem getD_append_zeros (l : DVec) (m j : Nat) : (l ++ List.replicate m 0).getD j 0 = l.getD j 0 := by
+  simp only [List.getD_eq_getElem?_getD]
+  by_cases h : j < l.length
+  · rw [List.getElem?_append_left h]
+  · have h' : l.length ≤ j := Nat.le_of_not_lt h
+    rw [List.getElem?_append_right h', List.getElem?_eq_none h']
+    by_cases h2 : j - l.length < m
+    · simp [h2]
+    · simp [h2]
+
+/-- zero padding of `esp` is invisible to the Newton recurrence -/
+theorem nextPowerSum_pad (esp : DVec) (m : Nat) (ps : DVec) (k : Nat) :
+    nextPowerSum (esp ++ List.replicate m 0) ps k = nextPowerSum esp ps k := by
+  unfold nextPowerSum
+  simp only [getD_append_zeros]
+
+/-- `updatePowerSum` extends a canonical prefix to the canonical vector of the length of `esp`,
+    in however many steps -/
+theorem updatePowerSum_canon (esp0 esp : DVec)
+    (hx : ∀ ps k, nextPowerSum esp ps k = nextPowerSum esp0 ps k) :
+    ∀ (fuel : Nat) (ps : DVec), ps = psN esp0 ps.length → ps.length ≤ esp.length →
+      esp.length - ps.length ≤ fuel → updatePowerSum esp fuel ps = psN esp0 esp.length := by
+  intro fuel
+  induction fuel with
+  | zero =>
+    intro ps hps hle hf
+    have : ps.length = esp.length := by omega
+    rw [updatePowerSum, ← this]; exact hps
+  | succ fuel ih =>
+    intro ps hps hle hf
+    rw [updatePowerSum]
+    by_cases hlt : ps.length < esp.length
+    · rw [if_pos hlt]
+      apply ih
+      · rw [List.length_append, List.length_singleton, psN, ← hps, hx]
+      · simp; omega
+      · simp; omega
+    · rw [if_neg hlt]
+      have : ps.length = esp.length := by omega
+      rw [← this]; exact hps
+
+/-- from scratch, `updatePowerSum` computes the canonical vector -/
+theorem updatePowerSum_nil (esp : DVec) {fuel : Nat} (h : esp.length ≤ fuel) :
+    updatePowerSum esp fuel [] = psN esp esp.length :=
+  updatePowerSum_canon esp esp (fun _ _ => rfl) fuel [] rfl (Nat.zero_le _) (by simpa using h)
+
+/-- `phiCanon_prefix`: the first power sums do not depend on how far the vectors were extended -/
+theorem updatePowerSum_prefix (esp : DVec) (m : Nat) :
+    (updatePowerSum (esp ++ List.replicate m 0) (esp.length + m) []).take esp.length
+      = updatePowerSum esp esp.length [] := by
+  rw [updatePowerSum_nil esp (Nat.le_refl _),
+    updatePowerSum_canon esp (esp ++ List.replicate m 0) (nextPowerSum_pad esp m) _ [] rfl (Nat.zero_le _)
+      (by simp)]
+  apply psN_take
+  simp
+
+/-- … nor on the number of steps in which they were extended -/
+theorem updatePowerSum_steps (esp : DVec) (m : Nat) :
+    updatePowerSum (esp ++ List.replicate m 0) m (updatePowerSum esp esp.length [])
+      = updatePowerSum (esp ++ List.replicate m 0) (esp.length + m) [] := by
+  rw [updatePowerSum_nil esp (Nat.le_refl _),
+    updatePowerSum_canon esp (esp ++ List.replicate m 0) (nextPowerSum_pad esp m) (esp.length + m) [] rfl
+      (Nat.zero_le _) (by simp)]
+  apply updatePowerSum_canon esp _ (nextPowerSum_pad esp m)
+  · rw [psN_length]
+  · rw [psN_length]; simp
+  · rw [psN_length]; simp
+
+/-! ### 2. canonical constants -/
+
+/-- `p` is `p0` extended: `esp` zero-padded, `ps` the canonical power sums of the same length -/
+def PolyCanon (p0 p : PolyParams) : Prop :=
+  (∃ m, p.esp = p0.esp ++ List.replicate m 0) ∧ p.ps = psN p0.esp p.esp.length
+
+theorem PolyCanon.ps_length {p0 p : PolyParams} (h : PolyCanon p0 p) : p.ps.length = p.esp.length := by
+  rw [h.2, psN_length]
+
+/-- padding `esp` with zeros and running `newton_optimization` keeps the constants canonical -/
+theorem newton_canon {p0 p : PolyParams} (h : PolyCanon p0 p) (pad : Nat) (o : Int) :
+    PolyCanon p0 (PolyParams.newton { p with esp := p.esp ++ List.replicate pad 0 } o) ∧
+    (PolyParams.newton { p with esp := p.esp ++ List.replicate pad 0 } o).esp
+      = p.esp ++ List.replicate pad 0 := by
+  obtain ⟨⟨m, hm⟩, hps⟩ := h
+  have hlen : p.ps.length = p.esp.length := by rw [hps, psN_length]
+  have hesp : p.esp ++ List.replicate pad 0 = p0.esp ++ List.replicate (m + pad) 0 := by
+    rw [hm, List.append_assoc, List.replicate_append_replicate]
+  unfold PolyParams.newton
+  dsimp only
+  by_cases h1 : p.ps.length < (p.esp ++ List.replicate pad 0).length
+  · rw [if_pos h1]
+    refine ⟨⟨⟨m + pad, hesp⟩, ?_⟩, rfl⟩
+    dsimp only
+    apply updatePowerSum_canon
+    · intro ps k; rw [hesp, nextPowerSum_pad]
+    · rw [hlen]; exact hps
+    · exact Nat.le_of_lt h1
+    · exact Nat.le_refl _
+  · rw [if_neg h1]
+    have h2 : ¬ (p.esp ++ List.replicate pad 0).length < p.ps.length := by
+      rw [hlen]; simp
+    rw [if_neg h2]
+    refine ⟨⟨⟨m + pad, hesp⟩, ?_⟩, rfl⟩
+    dsimp only
+    have : (p.esp ++ List.replicate pad 0).length = p.esp.length := by
+      simp at h1 ⊢; omega
+    rw [this]; exact hps
+
+/-- `CanonAt`: `φ` is what `Phi.fromElement e` produced, extended by some sequence of updates -/
+def Canon (K : BrainConsts) (e : Elem) (φ : Phi) : Prop :=
+  ∃ φ0, Phi.fromElement e K.one = .ok φ0 ∧ PolyCanon φ0.elem φ.elem ∧ PolyCanon φ0.mass φ.mass ∧
+    φ.order ≤ (φ.elem.esp.length : Int) ∧ φ.mass.esp.length = φ.elem.esp.length
+
+/-- `Phi.update` maps canonical constants to canonical constants, and afterwards every index
+    `≤ order` is in range -/
+theorem update_canon {K : BrainConsts} {e : Elem} {φ : Phi} (h : Canon K e φ) (o : Int) :
+    Canon K e (φ.update o) ∧ o < ((φ.update o).elem.esp.length : Int) := by
+  obtain ⟨φ0, h0, he, hm, hord, hlen⟩ := h
+  unfold Phi.update
+  by_cases h1 : o < φ.order
+  · rw [if_pos h1]
+    exact ⟨⟨φ0, h0, he, hm, hord, hlen⟩, by omega⟩
+  · rw [if_neg h1]
+    dsimp only
+    have ne := newton_canon he (o + 1 - φ.order).toNat
+      (((φ.elem.esp ++ List.replicate (o + 1 - φ.order).toNat (0 : Rat)).length : Nat) : Int)
+    have nm := newton_canon hm (o + 1 - φ.order).toNat
+      (((φ.elem.esp ++ List.replicate (o + 1 - φ.order).toNat (0 : Rat)).length : Nat) : Int)
+    refine ⟨⟨φ0, h0, ne.1, nm.1, ?_, ?_⟩, ?_⟩
+    · dsimp only; rw [ne.2]; exact Int.le_refl _
+    · dsimp only; rw [ne.2, nm.2]; simp [hlen]
+    · rw [ne.2]; simp; omega
+
+/-! ### 3. the initial constants are canonical -/
+
+/-- two outcomes of the same kind, related by `R` when both are values -/
+def ResRel {α β} (R : α → β → Prop) : Res α → Res β → Prop
+  | .ok a, .ok b => R a b
+  | .err, .err => True
+  | .panic, .panic => True
+  | _, _ => False
+
+theorem ResRel.bind {α β α' β'} {R : α → β → Prop} {S : α' → β' → Prop} {r1 : Res α} {r2 : Res β}
+    {f : α → Res α'} {g : β → Res β'} (h : ResRel R r1 r2)
+    (hfg : ∀ a b, R a b → ResRel S (f a) (g b)) : ResRel S (r1.bind f) (r2.bind g) := by
+  cases r1 <;> cases r2 <;> simp only [ResRel] at h <;> first | exact hfg _ _ h | trivial
+
+theorem ResRel.refl_eq {α} (r : Res α) : ResRel (fun a b => a = b) r r := by
+  cases r <;> simp only [ResRel]
+
+theorem ResRel.eq {α} {r1 r2 : Res α} (h : ResRel (fun a b => a = b) r1 r2) : r1 = r2 := by
+  cases r1 <;> cases r2 <;> simp only [ResRel] at h <;> first | rfl | (rw [h])
+
+theorem isoCoefLoop_len (e : Elem) (one : Rat) : ∀ (l : List Nat) (acc acc' : DVec),
+    acc.length = acc'.length →
+    ResRel (fun a b => a.length = b.length) (isoCoefLoop e false one l acc) (isoCoefLoop e true one l acc') := by
+  intro l
+  induction l with
+  | nil => intro acc acc' h; simpa only [isoCoefLoop, ResRel] using h
+  | cons i rest ih =>
+    intro acc acc' h
+    simp only [isoCoefLoop]
+    split
+    · trivial
+    · split
+      · exact ih _ _ h
+      · rw [h]
+        split
+        · apply ih; simp [h]
+        · split
+          · apply ih; simp [h]
+          · trivial
+
+theorem vietes_length {c esp : DVec} (h : vietes c = .ok esp) : esp.length = c.length := by
+  unfold vietes at h
+  split at h
+  · cases h
+  · cases h; simp
+
+theorem newton_init (esp : DVec) (o : Int) : PolyParams.newton ⟨esp, []⟩ o = ⟨esp, psN esp esp.length⟩ := by
+  unfold PolyParams.newton
+  dsimp only
+  by_cases h : ([] : DVec).length < esp.length
+  · rw [if_pos h]
+    congr 1
+    exact updatePowerSum_canon esp esp (fun _ _ => rfl) _ [] rfl (Nat.zero_le _) (Nat.le_refl _)
+  · rw [if_neg h]
+    have : esp = [] := by cases esp with
+      | nil => rfl
+      | cons a t => simp at h
+    subst this
+    rfl
+
+theorem polyFromElement_shape {e : Elem} {b : Bool} {one : Rat} {p : PolyParams}
+    (h : PolyParams.fromElement e b one = .ok p) :
+    PolyCanon p p ∧ ∃ acc, isotopicCoefficients e b one = .ok acc ∧ p.esp.length = acc.length := by
+  unfold PolyParams.fromElement at h
+  obtain ⟨acc, hacc, h⟩ := Res.bind_eq_ok.mp h
+  obtain ⟨esp, hesp, h⟩ := Res.bind_eq_ok.mp h
+  rw [newton_init] at h
+  cases h
+  exact ⟨⟨⟨0, by simp⟩, rfl⟩, acc, hacc, vietes_length hesp⟩
+
+/-- the requested order never exceeds the length of the coefficient vector the element produces
+    (`max_neutron_shift ≤ len`).  Without it the stateless function can panic (index out of range)
+    where a generator that has seen a larger request does not. -/
+def ElemOK (K : BrainConsts) (e : Elem) : Prop :=
+  ∀ φ0, Phi.fromElement e K.one = .ok φ0 → φ0.order ≤ (φ0.elem.esp.length : Int)
+
+instance (K : BrainConsts) (e : Elem) : Decidable (ElemOK K e) :=
+  match h : Phi.fromElement e K.one with
+  | .ok φ0 =>
+    if h2 : φ0.order ≤ (φ0.elem.esp.length : Int) then
+      isTrue (by intro φ hφ; rw [h] at hφ; cases hφ; exact h2)
+    else isFalse (fun hh => h2 (hh _ h))
+  | .err => isTrue (by intro φ hφ; rw [h] at hφ; cases hφ)
+  | .panic => isTrue (by intro φ hφ; rw [h] at hφ; cases hφ)
+
+theorem fromElement_canon {K : BrainConsts} {e : Elem} {φ0 : Phi} (hok : ElemOK K e)
+    (h : Phi.fromElement e K.one = .ok φ0) : Canon K e φ0 := by
+  refine ⟨φ0, h, ?_, ?_, hok φ0 h, ?_⟩
+  all_goals
+    unfold Phi.fromElement at h
+    obtain ⟨ec, hec, h⟩ := Res.bind_eq_ok.mp h
+    obtain ⟨mc, hmc, h⟩ := Res.bind_eq_ok.mp h
+    cases h
+    dsimp only
+  · exact (polyFromElement_shape hec).1
+  · exact (polyFromElement_shape hmc).1
+  · obtain ⟨_, a1, h1, l1⟩ := polyFromElement_shape hec
+    obtain ⟨_, a2, h2, l2⟩ := polyFromElement_shape hmc
+    have := isoCoefLoop_len e K.one (List.range ((e.maxShift - e.minShift).toNat + 1)) [] [] rfl
+    unfold isotopicCoefficients at h1 h2
+    rw [h1, h2] at this
+    simp only [ResRel] at this
+    omega
+
+theorem fromElement_poly {e : Elem} {one : Rat} {φ0 : Phi} (h : Phi.fromElement e one = .ok φ0) :
+    PolyCanon φ0.elem φ0.elem ∧ PolyCanon φ0.mass φ0.mass := by
+  unfold Phi.fromElement at h
+  obtain ⟨ec, hec, h⟩ := Res.bind_eq_ok.mp h
+  obtain ⟨mc, hmc, h⟩ := Res.bind_eq_ok.mp h
+  cases h
+  exact ⟨(polyFromElement_shape hec).1, (polyFromElement_shape hmc).1⟩
+
+/-- the part of the constants that is ever read -/
+def Same (φ ψ : Phi) : Prop := φ.order = ψ.order ∧ φ.elem = ψ.elem ∧ φ.mass = ψ.mass
+
+/-- the general invariant of one entry.  For an element with `ElemOK` the entry is canonical; for
+    an element without it (the coefficient vector is shorter than `max_neutron_shift`) the entry is
+    still the initial one — every call that would extend it fails (index out of range), see
+    `bad_update_fail`, and a failed call stores nothing. -/
+def CanonG (K : BrainConsts) (e : Elem) (φ : Phi) : Prop :=
+  (ElemOK K e ∧ Canon K e φ) ∨ (¬ ElemOK K e ∧ ∃ φ0, Phi.fromElement e K.one = .ok φ0 ∧ Same φ φ0)
+
+theorem fromElement_canonG {K : BrainConsts} {e : Elem} {φ0 : Phi} (h : Phi.fromElement e K.one = .ok φ0) :
+    CanonG K e φ0 := by
+  by_cases hok : ElemOK K e
+  · exact .inl ⟨hok, fromElement_canon hok h⟩
+  · exact .inr ⟨hok, φ0, h, rfl, rfl, rfl⟩
+
+theorem CanonG.from {K : BrainConsts} {e : Elem} {φ : Phi} (h : CanonG K e φ) :
+    ∃ φ0, Phi.fromElement e K.one = .ok φ0 := by
+  rcases h with ⟨_, φ0, h0, _⟩ | ⟨_, φ0, h0, _⟩ <;> exact ⟨φ0, h0⟩
+
+theorem update_same {φ ψ : Phi} (h : Same φ ψ) (o : Int) : Same (φ.update o) (ψ.update o) := by
+  obtain ⟨h1, h2, h3⟩ := h
+  unfold Phi.update
+  rw [h1, h2, h3]
+  split
+  · exact ⟨h1, h2, h3⟩
+  · exact ⟨rfl, rfl, rfl⟩
+
+/-- the answer of one entry to `nth_element_power_sum(_mass)` -/
+def ans (φ : Phi) (k : Nat) (b : Bool) : Res Rat :=
+  let v := if b then φ.mass.ps else φ.elem.ps
+  if k < v.length then .ok (v.getD k 0) else .panic
+
+theorem nthPs_eq (c : IsoConstants) (s : Sym) (k : Nat) (b : Bool) :
+    nthPs c s k b = match c.consts.find? (fun x => x.1 == s) with
+      | none => .panic
+      | some p => ans p.2 k b := by
+  unfold nthPs IsoConstants.get ans
+  cases c.consts.find? (fun x => x.1 == s) <;> rfl
+
+theorem ans_same {φ ψ : Phi} (h : Same φ ψ) (k : Nat) (b : Bool) : ans φ k b = ans ψ k b := by
+  unfold ans; rw [h.2.1, h.2.2]
+
+/-- an element without `ElemOK`: any update that extends its initial constants leaves the power
+    sums too short for the requested order, so the call fails -/
+theorem bad_update_fail {K : BrainConsts} {e : Elem} {φ φ0 : Phi} (hnok : ¬ ElemOK K e)
+    (h0 : Phi.fromElement e K.one = .ok φ0) (hs : Same φ φ0) {o : Int} (ho : ¬ o < φ.order) :
+    1 ≤ o.toNat ∧ ans (φ.update o) o.toNat false = .panic := by
+  have hbad : ¬ φ0.order ≤ (φ0.elem.esp.length : Int) := by
+    intro hle; apply hnok; intro φ0' h'; rw [h0] at h'; cases h'; exact hle
+  obtain ⟨h1, h2, h3⟩ := hs
+  have hpc : PolyCanon φ0.elem φ.elem := by rw [h2]; exact (fromElement_poly h0).1
+  have ne := newton_canon hpc (o + 1 - φ.order).toNat
+      (((φ.elem.esp ++ List.replicate (o + 1 - φ.order).toNat (0 : Rat)).length : Nat) : Int)
+  have hlen := ne.1.ps_length
+  rw [ne.2] at hlen
+  rw [← h2, ← h1] at hbad
+  refine ⟨by omega, ?_⟩
+  unfold Phi.update ans
+  rw [if_neg ho]
+  simp only [Bool.false_eq_true, if_false]
+  rw [if_neg]
+  rw [hlen]
+  simp
+  omega
+
+/-! ### 4. the output depends only on the power sums of index `1..order` -/
+
+/-- the two sets of constants answer every query the generator makes in the same way -/
+def NthAgree (c1 c2 : IsoConstants) (c : BComp) (n : Nat) : Prop :=
+  ∀ x ∈ c, ∀ k, 1 ≤ k → k ≤ n → ∀ b, nthPs c1 x.1.sym k b = nthPs c2 x.1.sym k b
+
+theorem mapRes_congr {α β} {f g : α → Res β} : ∀ {l : List α}, (∀ x ∈ l, f x = g x) → mapRes f l = mapRes g l
+  | [], _ => rfl
+  | x :: xs, h => by
+    simp only [mapRes]
+    rw [h x (List.mem_cons_self), mapRes_congr (fun y hy => h y (List.mem_cons_of_mem _ hy))]
+
+theorem phiFor_congr {c1 c2 : IsoConstants} {c : BComp} {n k : Nat} (h : NthAgree c1 c2 c n)
+    (h1 : 1 ≤ k) (h2 : k ≤ n) : phiFor c1 c k = phiFor c2 c k := by
+  unfold phiFor
+  congr 1
+  apply List.map_congr_left
+  intro x hx
+  rw [h x hx k h1 h2]
+
+theorem phiMassFor_congr {c1 c2 : IsoConstants} {c : BComp} {n k : Nat} (h : NthAgree c1 c2 c n)
+    (h1 : 1 ≤ k) (h2 : k ≤ n) {y : Elem × Int} (hy : y ∈ c) :
+    phiMassFor c1 c y.1 k = phiMassFor c2 c y.1 k := by
+  unfold phiMassFor
+  have : (c.map fun x =>
+      let coef : Int := if x.1.sym == y.1.sym && x.1.mostIso == y.1.mostIso then x.2 - 1 else x.2
+      (nthPs c1 x.1.sym k false).bind fun v => Res.ok (v * (coef : Rat))) =
+      (c.map fun x =>
+      let coef : Int := if x.1.sym == y.1.sym && x.1.mostIso == y.1.mostIso then x.2 - 1 else x.2
+      (nthPs c2 x.1.sym k false).bind fun v => Res.ok (v * (coef : Rat))) := by
+    apply List.map_congr_left
+    intro x hx
+    dsimp only
+    rw [h x hx k h1 h2]
+  rw [this, h y hy k h1 h2]
+
+theorem probabilityVector_congr {c1 c2 : IsoConstants} {c : BComp} {n : Nat} (h : NthAgree c1 c2 c n)
+    (V : Int) (base : Rat) : probabilityVector c1 c n V base = probabilityVector c2 c n V base := by
+  unfold probabilityVector
+  rw [mapRes_congr (g := fun i => phiFor c2 c (i + 1))]
+  intro i hi
+  have := List.mem_range.mp hi
+  exact phiFor_congr h (by omega) (by omega)
+
+theorem centerMassVector_congr {c1 c2 : IsoConstants} {c : BComp} {n : Nat} (h : NthAgree c1 c2 c n)
+    (V : Int) (base one : Rat) (prob : DVec) :
+    centerMassVector c1 c n V base one prob = centerMassVector c2 c n V base one prob := by
+  unfold centerMassVector
+  rw [mapRes_congr (l := c) (g := fun (x : Elem × Int) =>
+      (mapRes (fun i => phiMassFor c2 c x.1 (i + 1)) (List.range n)).bind fun phis =>
+        .ok (x.1.sym, espOfPs (0 :: phis) V))]
+  intro x hx
+  rw [mapRes_congr (g := fun i => phiMassFor c2 c x.1 (i + 1))]
+  intro i hi
+  have := List.mem_range.mp hi
+  exact phiMassFor_congr h (by omega) (by omega) hx
+
+/-- `variantsWith_congr`: constants that agree on the power sums `1..order` of the composition's
+    symbols (same value or same failure) give the same peaks -/
+theorem variantsWith_congr (K : BrainConsts) {c1 c2 : IsoConstants} {c : BComp} {n : Nat}
+    (h : NthAgree c1 c2 c n) (z : Int) (carrier : Rat) :
+    variantsWith K c1 c n z carrier = variantsWith K c2 c n z carrier := by
+  unfold variantsWith rawVariants
+  dsimp only
+  rw [probabilityVector_congr h]
+  congr 2
+  funext prob
+  rw [centerMassVector_congr h]
+
+/-! ### 5. the cache invariant and the simulation of `populate` by `populateFromCache` -/
+
+/-- one table: the symbol determines the element -/
+def SymInj (T : List Elem) : Prop := ∀ x ∈ T, ∀ y ∈ T, x.sym = y.sym → x = y
+
+/-- a composition over the table -/
+def CompOK (T : List Elem) (c : BComp) : Prop := ∀ x ∈ c, x.1 ∈ T
+
+/-- every cached entry satisfies the entry invariant for the element of the table that carries its symbol -/
+def CacheInv (K : BrainConsts) (T : List Elem) (cache : Cache) : Prop :=
+  ∀ p ∈ cache, ∃ e ∈ T, e.sym = p.1 ∧ CanonG K e p.2
+
+/-- pointwise relation of two lists of the same length -/
+inductive All2 {α β} (R : α → β → Prop) : List α → List β → Prop
+  | nil : All2 R [] []
+  | cons {a b l1 l2} : R a b → All2 R l1 l2 → All2 R (a :: l1) (b :: l2)
+
+def EntryRel (K : BrainConsts) (T : List Elem) (a b : Sym × Phi) : Prop :=
+  a.1 = b.1 ∧ ∃ e ∈ T, e.sym = a.1 ∧ CanonG K e a.2 ∧ CanonG K e b.2
+
+def SimOK (K : BrainConsts) (T : List Elem) (a : IsoConstants) (bc : IsoConstants × Cache) : Prop :=
+  a.order = bc.1.order ∧ All2 (EntryRel K T) a.consts bc.1.consts ∧ CacheInv K T bc.2 ∧
+    (∀ p ∈ bc.1.consts, ∀ q ∈ bc.2, q.1 ≠ p.1)
+
+theorem forall2_find {R : Sym × Phi → Sym × Phi → Prop} (hk : ∀ a b, R a b → a.1 = b.1) (s : Sym) :
+    ∀ {l1 l2 : List (Sym × Phi)}, All2 R l1 l2 →
+      (l1.find? (fun x => x.1 == s) = none ∧ l2.find? (fun x => x.1 == s) = none) ∨
+      ∃ a b, l1.find? (fun x => x.1 == s) = some a ∧ l2.find? (fun x => x.1 == s) = some b ∧ R a b := by
+  intro l1 l2 h
+  induction h with
+  | nil => left; exact ⟨rfl, rfl⟩
+  | @cons a b l1 l2 hab _ ih =>
+    simp only [List.find?_cons]
+    rw [← hk a b hab]
+    cases hs : a.1 == s with
+    | true => right; exact ⟨a, b, rfl, rfl, hab⟩
+    | false => exact ih
+
+theorem forall2_snoc {α β} {R : α → β → Prop} {a : α} {b : β} (hab : R a b) :
+    ∀ {l1 : List α} {l2 : List β}, All2 R l1 l2 → All2 R (l1 ++ [a]) (l2 ++ [b]) := by
+  intro l1 l2 h
+  induction h with
+  | nil => exact .cons hab .nil
+  | cons h1 _ ih => exact .cons h1 ih
+
+theorem forall2_map {α β α' β'} {R : α → β → Prop} {S : α' → β' → Prop} {f : α → α'} {g : β → β'}
+    (hfg : ∀ a b, R a b → S (f a) (g b)) :
+    ∀ {l1 : List α} {l2 : List β}, All2 R l1 l2 → All2 S (l1.map f) (l2.map g) := by
+  intro l1 l2 h
+  induction h with
+  | nil => exact .nil
+  | cons h1 _ ih => exact .cons (hfg _ _ h1) ih
+
+theorem all2_right {α β} {R : α → β → Prop} : ∀ {l1 : List α} {l2 : List β}, All2 R l1 l2 →
+    ∀ q ∈ l2, ∃ p ∈ l1, R p q := by
+  intro l1 l2 h
+  induction h with
+  | nil => intro q hq; cases hq
+  | cons h1 _ ih =>
+    intro q hq
+    rcases List.mem_cons.mp hq with rfl | hq
+    · exact ⟨_, List.mem_cons_self, h1⟩
+    · obtain ⟨p, hp, hr⟩ := ih q hq
+      exact ⟨p, List.mem_cons_of_mem _ hp, hr⟩
+
+theorem add_of_find_none {c : IsoConstants} {e : Elem} {one : Rat}
+    (h : c.consts.find? (fun x => x.1 == e.sym) = none) :
+    c.add e one = (Phi.fromElement e one).bind fun phi => .ok { c with consts := c.consts ++ [(e.sym, phi)] } := by
+  unfold IsoConstants.add IsoConstants.get; rw [h]; rfl
+
+theorem add_of_find_some {c : IsoConstants} {e : Elem} {one : Rat} {p : Sym × Phi}
+    (h : c.consts.find? (fun x => x.1 == e.sym) = some p) : c.add e one = .ok c := by
+  unfold IsoConstants.add IsoConstants.get; rw [h]; rfl
+
+def stepS (K : BrainConsts) (acc : Res IsoConstants) (x : Elem × Int) : Res IsoConstants :=
+  acc.bind fun cs => cs.add x.1 K.one
+
+def stepC (K : BrainConsts) (acc : Res (IsoConstants × Cache)) (x : Elem × Int) : Res (IsoConstants × Cache) :=
+  acc.bind fun (cs, cache) =>
+      match Cache.checkout cache x.1.sym with
+      | (some phi, cache') => .ok ({ cs with consts := cs.consts ++ [(x.1.sym, phi)] }, cache')
+      | (none, cache') => (cs.add x.1 K.one).bind fun cs' => .ok (cs', cache')
+
+theorem populate_eq (K : BrainConsts) (c : BComp) (order : Int) :
+    populate K c order = (c.foldl (stepS K) (Res.ok ⟨[], order⟩)).bind fun cs => .ok cs.update := rfl
+
+theorem populateFromCache_eq (K : BrainConsts) (c : BComp) (order : Int) (cache : Cache) :
+    populateFromCache K c order cache =
+      (c.foldl (stepC K) (Res.ok (⟨[], order⟩, cache))).bind fun (cs, cache) => .ok (cs.update, cache) := rfl
+
+theorem step_sim {K : BrainConsts} {T : List Elem} (hT : SymInj T) {x : Elem × Int} (hx : x.1 ∈ T)
+    {r1 : Res IsoConstants} {r2 : Res (IsoConstants × Cache)} (h : ResRel (SimOK K T) r1 r2) :
+    ResRel (SimOK K T) (stepS K r1 x) (stepC K r2 x) := by
+  unfold stepS stepC
+  refine ResRel.bind h ?_
+  rintro a ⟨b, ch⟩ ⟨hord, hf2, hinv, hdis⟩
+  dsimp only at hord hf2 hinv hdis ⊢
+  have hkey : ∀ a b, EntryRel K T a b → a.1 = b.1 := fun _ _ h => h.1
+  cases hfind : ch.find? (fun y => y.1 == x.1.sym) with
+  | some q =>
+    have hco : Cache.checkout ch x.1.sym = (some q.2, ch.filter (fun y => !(y.1 == x.1.sym))) := by
+      unfold Cache.checkout; rw [hfind]
+    rw [hco]
+    dsimp only
+    have hq : q ∈ ch := List.mem_of_find?_eq_some hfind
+    have hqs : q.1 = x.1.sym := by
+      have := List.find?_some hfind
+      exact eq_of_beq this
+    obtain ⟨e', he'T, he's, hcan⟩ := hinv q hq
+    have : e' = x.1 := hT e' he'T x.1 hx (he's.trans hqs)
+    subst this
+    obtain ⟨φ0, h0⟩ := hcan.from
+    have hnone : a.consts.find? (fun y => y.1 == x.1.sym) = none := by
+      rcases forall2_find hkey x.1.sym hf2 with h | ⟨a', b', _, hb', _⟩
+      · exact h.1
+      · exfalso
+        have hb'm : b' ∈ b.consts := List.mem_of_find?_eq_some hb'
+        have hb's : b'.1 = x.1.sym := by
+          have := List.find?_some hb'
+          exact eq_of_beq this
+        exact hdis b' hb'm q hq (hqs.trans hb's.symm)
+    rw [add_of_find_none hnone, h0]
+    simp only [Res.bind_ok, ResRel]
+    refine ⟨hord, ?_, ?_, ?_⟩
+    · exact forall2_snoc ⟨rfl, x.1, hx, rfl, fromElement_canonG h0, hcan⟩ hf2
+    · intro p hp
+      exact hinv p (List.mem_filter.mp hp).1
+    · intro p hp q' hq'
+      have hq'' := List.mem_filter.mp hq'
+      rcases List.mem_append.mp hp with hp | hp
+      · exact hdis p hp q' hq''.1
+      · have : p = (x.1.sym, q.2) := by simpa using hp
+        subst this
+        intro heq
+        have := hq''.2
+        dsimp only at heq
+        rw [heq] at this
+        simp at this
+  | none =>
+    have hco : Cache.checkout ch x.1.sym = (none, ch) := by
+      unfold Cache.checkout; rw [hfind]
+    rw [hco]
+    dsimp only
+    rcases forall2_find hkey x.1.sym hf2 with ⟨h1, h2⟩ | ⟨a', b', ha', hb', _⟩
+    · rw [add_of_find_none h1, add_of_find_none h2]
+      cases h0 : Phi.fromElement x.1 K.one with
+      | ok φ0 =>
+        simp only [Res.bind_ok, ResRel]
+        have hcan := fromElement_canonG h0
+        refine ⟨hord, forall2_snoc ⟨rfl, x.1, hx, rfl, hcan, hcan⟩ hf2, hinv, ?_⟩
+        intro p hp q' hq'
+        rcases List.mem_append.mp hp with hp | hp
+        · exact hdis p hp q' hq'
+        · have : p = (x.1.sym, φ0) := by simpa using hp
+          subst this
+          intro heq
+          have := List.find?_eq_none.mp hfind q' hq'
+          dsimp only at heq
+          rw [heq] at this
+          simp at this
+      | err => simp only [Res.bind_err, ResRel]
+      | panic => simp only [Res.bind_panic, ResRel]
+    · rw [add_of_find_some ha', add_of_find_some hb']
+      simp only [Res.bind_ok, ResRel]
+      exact ⟨hord, hf2, hinv, hdis⟩
+
+theorem fold_sim {K : BrainConsts} {T : List Elem} (hT : SymInj T) :
+    ∀ {c : BComp}, CompOK T c → ∀ {r1 : Res IsoConstants} {r2 : Res (IsoConstants × Cache)},
+      ResRel (SimOK K T) r1 r2 → ResRel (SimOK K T) (c.foldl (stepS K) r1) (c.foldl (stepC K) r2) := by
+  intro c
+  induction c with
+  | nil => intro _ _ _ h; exact h
+  | cons x xs ih =>
+    intro hc r1 r2 h
+    simp only [List.foldl_cons]
+    exact ih (fun y hy => hc y (List.mem_cons_of_mem _ hy)) (step_sim hT (hc x List.mem_cons_self) h)
+
+theorem add_order {c c' : IsoConstants} {e : Elem} {one : Rat} (h : c.add e one = .ok c') :
+    c'.order = c.order := by
+  unfold IsoConstants.add at h
+  split at h
+  · cases h; rfl
+  · obtain ⟨phi, _, h⟩ := Res.bind_eq_ok.mp h
+    cases h; rfl
+
+theorem foldS_order (K : BrainConsts) : ∀ (c : BComp) (r : Res IsoConstants) (a : IsoConstants),
+    c.foldl (stepS K) r = .ok a → ∃ a0, r = .ok a0 ∧ a.order = a0.order := by
+  intro c
+  induction c with
+  | nil => intro r a h; exact ⟨a, h, rfl⟩
+  | cons x xs ih =>
+    intro r a h
+    obtain ⟨a1, h1, ho⟩ := ih _ _ h
+    unfold stepS at h1
+    obtain ⟨a0, h0, h2⟩ := Res.bind_eq_ok.mp h1
+    exact ⟨a0, h0, ho.trans (add_order h2)⟩
+
+theorem add_keys {c c' : IsoConstants} {e : Elem} {one : Rat} (h : c.add e one = .ok c') :
+    ∀ q ∈ c'.consts, q ∈ c.consts ∨ q.1 = e.sym := by
+  unfold IsoConstants.add at h
+  split at h
+  · cases h; intro q hq; exact .inl hq
+  · obtain ⟨phi, _, h⟩ := Res.bind_eq_ok.mp h
+    cases h
+    intro q hq
+    rcases List.mem_append.mp hq with hq | hq
+    · exact .inl hq
+    · right
+      have : q = (e.sym, phi) := by simpa using hq
+      rw [this]
+
+theorem stepC_keys {K : BrainConsts} {r : Res (IsoConstants × Cache)} {x : Elem × Int} {bc1 : IsoConstants × Cache}
+    (h : stepC K r x = .ok bc1) :
+    ∃ bc0, r = .ok bc0 ∧ ∀ q ∈ bc1.1.consts, q ∈ bc0.1.consts ∨ q.1 = x.1.sym := by
+  unfold stepC at h
+  obtain ⟨⟨b, ch⟩, h0, h⟩ := Res.bind_eq_ok.mp h
+  refine ⟨(b, ch), h0, ?_⟩
+  dsimp only at h ⊢
+  cases hfind : ch.find? (fun y => y.1 == x.1.sym) with
+  | some q =>
+    have hco : Cache.checkout ch x.1.sym = (some q.2, ch.filter (fun y => !(y.1 == x.1.sym))) := by
+      unfold Cache.checkout; rw [hfind]
+    rw [hco] at h
+    dsimp only at h
+    cases h
+    intro q' hq'
+    rcases List.mem_append.mp hq' with hq' | hq'
+    · exact .inl hq'
+    · right
+      have : q' = (x.1.sym, q.2) := by simpa using hq'
+      rw [this]
+  | none =>
+    have hco : Cache.checkout ch x.1.sym = (none, ch) := by
+      unfold Cache.checkout; rw [hfind]
+    rw [hco] at h
+    dsimp only at h
+    obtain ⟨cs', hadd, h⟩ := Res.bind_eq_ok.mp h
+    cases h
+    exact add_keys hadd
+
+theorem foldC_keys (K : BrainConsts) : ∀ (c : BComp) (r : Res (IsoConstants × Cache)) (bc : IsoConstants × Cache),
+    c.foldl (stepC K) r = .ok bc →
+      ∃ bc0, r = .ok bc0 ∧ ∀ q ∈ bc.1.consts, q ∈ bc0.1.consts ∨ ∃ x ∈ c, x.1.sym = q.1 := by
+  intro c
+  induction c with
+  | nil => intro r bc h; exact ⟨bc, h, fun q hq => .inl hq⟩
+  | cons x xs ih =>
+    intro r bc h
+    obtain ⟨bc1, h1, hk⟩ := ih _ _ h
+    obtain ⟨bc0, h0, hk0⟩ := stepC_keys h1
+    refine ⟨bc0, h0, ?_⟩
+    intro q hq
+    rcases hk q hq with hq1 | ⟨y, hy, hys⟩
+    · rcases hk0 q hq1 with hq0 | hqs
+      · exact .inl hq0
+      · exact .inr ⟨x, List.mem_cons_self, hqs.symm⟩
+    · exact .inr ⟨y, List.mem_cons_of_mem _ hy, hys⟩
+
+/-! ### 6. one call: same peaks as the stateless function, and the invariant is kept -/
+
+/-- what a canonical, sufficiently extended entry answers to `nthPs` -/
+theorem canon_nth {K : BrainConsts} {e : Elem} {φ φ0 : Phi} (h : Canon K e φ)
+    (h0 : Phi.fromElement e K.one = .ok φ0) {o : Int} (ho : o < (φ.elem.esp.length : Int))
+    {k : Nat} (hk : k ≤ o.toNat) (hk1 : 1 ≤ k) (b : Bool) :
+    ans φ k b = .ok (psAt (if b then φ0.mass.esp else φ0.elem.esp) k) := by
+  obtain ⟨φ0', h0', he, hm, _, hlen⟩ := h
+  rw [h0] at h0'
+  cases h0'
+  have hkl : k < φ.elem.esp.length := by omega
+  unfold ans
+  cases b with
+  | true =>
+    simp only [if_true]
+    have : k < φ.mass.ps.length := by rw [hm.ps_length, hlen]; exact hkl
+    rw [if_pos this, hm.2, psN_getD]
+    rw [hlen]; exact hkl
+  | false =>
+    simp only [Bool.false_eq_true, if_false]
+    have : k < φ.elem.ps.length := by rw [he.ps_length]; exact hkl
+    rw [if_pos this, he.2, psN_getD _ hkl]
+
+/-- two entries for the same element answer alike once both are updated to the same order -/
+theorem pair_ans {K : BrainConsts} {e : Elem} {p q : Phi} (hp : CanonG K e p) (hq : CanonG K e q)
+    (o : Int) {k : Nat} (hk1 : 1 ≤ k) (hk : k ≤ o.toNat) (b : Bool) :
+    ans (p.update o) k b = ans (q.update o) k b := by
+  rcases hp with ⟨_, cp⟩ | ⟨hn, φ0, h0, sp⟩
+  · rcases hq with ⟨_, cq⟩ | ⟨hn, _⟩
+    · obtain ⟨φ0, h0, -⟩ := id cp
+      obtain ⟨cp', lp⟩ := update_canon cp o
+      obtain ⟨cq', lq⟩ := update_canon cq o
+      rw [canon_nth cp' h0 lp hk hk1 b, canon_nth cq' h0 lq hk hk1 b]
+    · contradiction
+  · rcases hq with ⟨hok, _⟩ | ⟨_, φ0', h0', sq⟩
+    · contradiction
+    · rw [h0] at h0'; cases h0'
+      apply ans_same
+      apply update_same
+      exact ⟨sp.1.trans sq.1.symm, sp.2.1.trans sq.2.1.symm, sp.2.2.trans sq.2.2.symm⟩
+
+theorem sim_nthAgree {K : BrainConsts} {T : List Elem} {a : IsoConstants} {bc : IsoConstants × Cache}
+    (h : SimOK K T a bc) (c : BComp) : NthAgree a.update bc.1.update c a.order.toNat := by
+  obtain ⟨hord, hf2, -, -⟩ := h
+  intro x _ k hk1 hk b
+  have hf2' : All2 (fun p q => p.1 = q.1 ∧ ans p.2 k b = ans q.2 k b) a.update.consts bc.1.update.consts := by
+    unfold IsoConstants.update
+    dsimp only
+    refine forall2_map ?_ hf2
+    rintro p q ⟨hpq, e, heT, hes, hp, hq⟩
+    refine ⟨hpq, ?_⟩
+    dsimp only
+    rw [← hord]
+    exact pair_ans hp hq _ hk1 hk b
+  rw [nthPs_eq, nthPs_eq]
+  rcases forall2_find (fun _ _ h => h.1) x.1.sym hf2' with ⟨h1, h2⟩ | ⟨p, q, hp, hq, -, hpq⟩
+  · rw [h1, h2]
+  · rw [hp, hq]
+    exact hpq
+
+def peaksOf (r : Res (List Peak × Cache)) : Res (List Peak) := r.bind fun p => .ok p.1
+
+theorem sim_init {K : BrainConsts} {T : List Elem} {cache : Cache} (hinv : CacheInv K T cache) (o : Int) :
+    ResRel (SimOK K T) (Res.ok ⟨[], o⟩) (Res.ok (⟨[], o⟩, cache)) := by
+  simp only [ResRel]
+  exact ⟨rfl, .nil, hinv, fun p hp => by cases hp⟩
+
+/-- `call_pure`: from a cache that satisfies the invariant, a generator call returns the peaks (or
+    the failure) of the stateless function -/
+theorem call_pure {K : BrainConsts} {T : List Elem} (hT : SymInj T) {cache : Cache}
+    (hinv : CacheInv K T cache) {c : BComp} (hc : CompOK T c) (req : PeakReq) (z : Int) (carrier : Rat) :
+    peaksOf (generatorCall K cache c req z carrier) = brainVariants K c req z carrier := by
+  unfold peaksOf generatorCall brainVariants
+  dsimp only
+  rw [populate_eq, populateFromCache_eq]
+  have hs := fold_sim hT hc (sim_init hinv (resolveOrder K c req))
+  have ho : ∀ a, c.foldl (stepS K) (Res.ok ⟨[], resolveOrder K c req⟩) = .ok a →
+      a.order = resolveOrder K c req := by
+    intro a ha
+    obtain ⟨a0, h0, h1⟩ := foldS_order K c _ a ha
+    cases h0; exact h1
+  revert hs ho
+  generalize c.foldl (stepS K) _ = r1
+  generalize c.foldl (stepC K) _ = r2
+  intro hs ho
+  cases r1 <;> cases r2 <;> simp only [ResRel] at hs <;> try rfl
+  rename_i a bc
+  obtain ⟨b, ch⟩ := bc
+  simp only [Res.bind_ok]
+  have hag := sim_nthAgree hs c
+  have hord : a.order = resolveOrder K c req := ho a rfl
+  rw [hord] at hag
+  rw [variantsWith_congr K hag]
+  cases variantsWith K (IsoConstants.update b) c (resolveOrder K c req).toNat z carrier <;> rfl
+
+/-! failure propagation: a successful call has read every power sum `1..order` of every symbol -/
+
+theorem foldl_sum_ok : ∀ (l : List (Res Rat)) (init : Res Rat) (v : Rat),
+    l.foldl (fun acc x => acc.bind fun a => x.bind fun b => .ok (a + b)) init = .ok v →
+      (∃ a, init = .ok a) ∧ ∀ x ∈ l, ∃ b, x = .ok b := by
+  intro l
+  induction l with
+  | nil => intro init v h; exact ⟨⟨v, h⟩, fun x hx => by cases hx⟩
+  | cons y ys ih =>
+    intro init v h
+    simp only [List.foldl_cons] at h
+    obtain ⟨⟨a', ha'⟩, hys⟩ := ih _ _ h
+    obtain ⟨a, ha, h2⟩ := Res.bind_eq_ok.mp ha'
+    obtain ⟨b, hb, _⟩ := Res.bind_eq_ok.mp h2
+    refine ⟨⟨a, ha⟩, ?_⟩
+    intro x hx
+    rcases List.mem_cons.mp hx with rfl | hx
+    · exact ⟨b, hb⟩
+    · exact hys x hx
+
+theorem mapRes_ok {α β} {f : α → Res β} : ∀ {l : List α} {ys : List β}, mapRes f l = .ok ys →
+    ∀ x ∈ l, ∃ y, f x = .ok y := by
+  intro l
+  induction l with
+  | nil => intro _ _ x hx; cases hx
+  | cons a as ih =>
+    intro ys h x hx
+    simp only [mapRes] at h
+    obtain ⟨y, hy, h⟩ := Res.bind_eq_ok.mp h
+    obtain ⟨ys', hys', _⟩ := Res.bind_eq_ok.mp h
+    rcases List.mem_cons.mp hx with rfl | hx
+    · exact ⟨y, hy⟩
+    · exact ih hys' x hx
+
+theorem variantsWith_ok_nth {K : BrainConsts} {consts : IsoConstants} {c : BComp} {n : Nat} {z : Int}
+    {carrier : Rat} {pk : List Peak} (h : variantsWith K consts c n z carrier = .ok pk) :
+    ∀ x ∈ c, ∀ k, 1 ≤ k → k ≤ n → ∃ v, nthPs consts x.1.sym k false = .ok v := by
+  intro x hx k hk1 hk
+  unfold variantsWith rawVariants at h
+  dsimp only at h
+  obtain ⟨_, h, _⟩ := Res.bind_eq_ok.mp h
+  obtain ⟨prob, h, _⟩ := Res.bind_eq_ok.mp h
+  unfold probabilityVector at h
+  obtain ⟨phis, h, _⟩ := Res.bind_eq_ok.mp h
+  obtain ⟨y, hy⟩ := mapRes_ok h (k - 1) (List.mem_range.mpr (by omega))
+  have hk' : k - 1 + 1 = k := by omega
+  rw [hk'] at hy
+  unfold phiFor sumRes at hy
+  obtain ⟨_, hall⟩ := foldl_sum_ok _ _ _ hy
+  obtain ⟨b, hb⟩ := hall _ (List.mem_map.mpr ⟨x, hx, rfl⟩)
+  obtain ⟨v, hv, _⟩ := Res.bind_eq_ok.mp hb
+  exact ⟨v, hv⟩
+
+theorem receive_inv {K : BrainConsts} {T : List Elem} {ch : Cache} (hinv : CacheInv K T ch) {s : Sym} {φ : Phi}
+    (h : ∃ e ∈ T, e.sym = s ∧ CanonG K e φ) : CacheInv K T (Cache.receive ch s φ) := by
+  unfold Cache.receive
+  split
+  · intro p hp
+    rcases List.mem_append.mp hp with hp | hp
+    · exact hinv p hp
+    · have : p = (s, φ) := by simpa using hp
+      subst this; exact h
+  · split
+    · exact hinv
+    · intro p hp
+      obtain ⟨y, hy, rfl⟩ := List.mem_map.mp hp
+      split
+      · exact h
+      · exact hinv y hy
+
+theorem receive_fold_inv {K : BrainConsts} {T : List Elem} : ∀ (l : List (Sym × Phi)) {ch : Cache},
+    CacheInv K T ch → (∀ q ∈ l, ∃ e ∈ T, e.sym = q.1 ∧ CanonG K e q.2) →
+    CacheInv K T (l.foldl (fun ch x => Cache.receive ch x.1 x.2) ch) := by
+  intro l
+  induction l with
+  | nil => intro ch h _; exact h
+  | cons x xs ih =>
+    intro ch h hl
+    simp only [List.foldl_cons]
+    exact ih (receive_inv h (hl x List.mem_cons_self)) (fun q hq => hl q (List.mem_cons_of_mem _ hq))
+
+/-- `call_inv`: a successful call leaves a cache that satisfies the invariant -/
+theorem call_inv {K : BrainConsts} {T : List Elem} (hT : SymInj T) {cache : Cache}
+    (hinv : CacheInv K T cache) {c : BComp} (hc : CompOK T c) {req : PeakReq} {z : Int} {carrier : Rat}
+    {peaks : List Peak} {cache' : Cache} (h : generatorCall K cache c req z carrier = .ok (peaks, cache')) :
+    CacheInv K T cache' := by
+  unfold generatorCall at h
+  dsimp only at h
+  rw [populateFromCache_eq] at h
+  have hs := fold_sim hT hc (sim_init hinv (resolveOrder K c req))
+  have ho : ∀ a, c.foldl (stepS K) (Res.ok ⟨[], resolveOrder K c req⟩) = .ok a →
+      a.order = resolveOrder K c req := by
+    intro a ha
+    obtain ⟨a0, h0, h1⟩ := foldS_order K c _ a ha
+    cases h0; exact h1
+  have hkeys : ∀ bc, c.foldl (stepC K) (Res.ok (⟨[], resolveOrder K c req⟩, cache)) = .ok bc →
+      ∀ q ∈ bc.1.consts, ∃ x ∈ c, x.1.sym = q.1 := by
+    intro bc hbc q hq
+    obtain ⟨bc0, h0, hk⟩ := foldC_keys K c _ bc hbc
+    cases h0
+    rcases hk q hq with hq0 | hx
+    · cases hq0
+    · exact hx
+  revert hs h ho hkeys
+  generalize c.foldl (stepS K) _ = r1
+  generalize c.foldl (stepC K) _ = r2
+  intro h hs ho hkeys
+  cases r1 <;> cases r2 <;> simp only [ResRel] at hs <;> try (cases h; done)
+  rename_i a bc
+  obtain ⟨b, ch⟩ := bc
+  simp only [Res.bind_ok] at h
+  obtain ⟨pk, hvar, h⟩ := Res.bind_eq_ok.mp h
+  cases h
+  have hordA : a.order = resolveOrder K c req := ho a rfl
+  have hkeys' := hkeys (b, ch) rfl
+  obtain ⟨hord, hf2, hinv', -⟩ := hs
+  dsimp only at hord hf2 hinv' hkeys'
+  have hordB : b.order = resolveOrder K c req := hord.symm.trans hordA
+  apply receive_fold_inv _ hinv'
+  intro q hq
+  unfold IsoConstants.update at hq
+  obtain ⟨q0, hq0, rfl⟩ := List.mem_map.mp hq
+  obtain ⟨p0, _, hpq, e, heT, hes, _, hcq⟩ := all2_right hf2 q0 hq0
+  have hes' : e.sym = q0.1 := hes.trans hpq
+  refine ⟨e, heT, hes', ?_⟩
+  dsimp only
+  rcases hcq with ⟨hok, hcan⟩ | ⟨hnok, φ0, h0, hsame⟩
+  · exact .inl ⟨hok, (update_canon hcan _).1⟩
+  · right
+    refine ⟨hnok, φ0, h0, ?_⟩
+    by_cases hlt : b.order < q0.2.order
+    · unfold Phi.update; rw [if_pos hlt]; exact hsame
+    · exfalso
+      obtain ⟨x, hxc, hxs⟩ := hkeys' q0 hq0
+      have hxe : x.1 = e := hT x.1 (hc x hxc) e heT (hxs.trans hes'.symm)
+      obtain ⟨hk1, _⟩ := bad_update_fail hnok h0 hsame hlt
+      rw [← hordB] at hvar
+      obtain ⟨v, hv⟩ := variantsWith_ok_nth hvar x hxc b.order.toNat hk1 (Nat.le_refl _)
+      rw [nthPs_eq] at hv
+      cases hf : (IsoConstants.update b).consts.find? (fun y => y.1 == x.1.sym) with
+      | none => rw [hf] at hv; cases hv
+      | some q' =>
+        rw [hf] at hv
+        dsimp only at hv
+        have hq'm : q' ∈ (IsoConstants.update b).consts := List.mem_of_find?_eq_some hf
+        have hq's : q'.1 = x.1.sym := by
+          have := List.find?_some hf
+          exact eq_of_beq this
+        unfold IsoConstants.update at hq'm
+        obtain ⟨q1, hq1, rfl⟩ := List.mem_map.mp hq'm
+        obtain ⟨p1, _, hpq1, e1, he1T, hes1, _, hcq1⟩ := all2_right hf2 q1 hq1
+        have : e1 = e := hT e1 he1T e heT (by
+          rw [hes1, hpq1]; dsimp only at hq's; rw [hq's, hxe])
+        subst this
+        rcases hcq1 with ⟨hok, _⟩ | ⟨_, φ0', h0', hsame1⟩
+        · contradiction
+        · rw [h0] at h0'; cases h0'
+          have hlt1 : ¬ b.order < q1.2.order := by rw [hsame1.1, ← hsame.1]; exact hlt
+          obtain ⟨_, hp⟩ := bad_update_fail hnok h0 hsame1 hlt1
+          dsimp only at hv
+          rw [hp] at hv
+          cases hv
+
+/-! ### 7. any history -/
+
+abbrev Call := BComp × PeakReq × Int × Rat
+
+/-- the cache after one more call: the new cache when the call succeeds, unchanged otherwise -/
+def stepCache (K : BrainConsts) (cache : Cache) (q : Call) : Cache :=
+  match generatorCall K cache q.1 q.2.1 q.2.2.1 q.2.2.2 with
+  | .ok (_, cache') => cache'
+  | _ => cache
+
+/-- run the calls of `hist` in order from the empty cache -/
+def runHist (K : BrainConsts) (hist : List Call) : Cache := hist.foldl (stepCache K) []
+
+theorem stepCache_inv {K : BrainConsts} {T : List Elem} (hT : SymInj T) {cache : Cache}
+    (hinv : CacheInv K T cache) {q : Call} (hq : CompOK T q.1) : CacheInv K T (stepCache K cache q) := by
+  unfold stepCache
+  split
+  · rename_i h; exact call_inv hT hinv hq h
+  · exact hinv
+
+theorem foldCache_inv {K : BrainConsts} {T : List Elem} (hT : SymInj T) : ∀ (hist : List Call) {cache : Cache},
+    CacheInv K T cache → (∀ q ∈ hist, CompOK T q.1) → CacheInv K T (hist.foldl (stepCache K) cache) := by
+  intro hist
+  induction hist with
+  | nil => intro _ h _; exact h
+  | cons q qs ih =>
+    intro cache h hq
+    simp only [List.foldl_cons]
+    exact ih (stepCache_inv hT h (hq q List.mem_cons_self)) (fun r hr => hq r (List.mem_cons_of_mem _ hr))
+
+theorem runHist_inv {K : BrainConsts} {T : List Elem} (hT : SymInj T) (hist : List Call)
+    (hh : ∀ q ∈ hist, CompOK T q.1) : CacheInv K T (runHist K hist) :=
+  foldCache_inv hT hist (fun p hp => by cases hp) hh
+
+/-- `history_pure`: whatever was requested from the generator before, a call returns exactly what the
+    stateless function returns (same peaks, or the same kind of failure) -/
+theorem history_pure {K : BrainConsts} {T : List Elem} (hT : SymInj T) (hist : List Call)
+    (hh : ∀ q ∈ hist, CompOK T q.1) {c : BComp} (hc : CompOK T c) (req : PeakReq) (z : Int) (carrier : Rat) :
+    peaksOf (generatorCall K (runHist K hist) c req z carrier) = brainVariants K c req z carrier :=
+  call_pure hT (runHist_inv hT hist hh) hc req z carrier
+
+/-- the same, with the table left implicit: the elements that occur in the history and in the call -/
+def histElems (hist : List Call) (c : BComp) : List Elem :=
+  (hist.flatMap fun q => q.1.map (·.1)) ++ c.map (·.1)
+
+theorem history_pure' {K : BrainConsts} (hist : List Call) (c : BComp)
+    (hwf : SymInj (histElems hist c)) (req : PeakReq) (z : Int) (carrier : Rat) :
+    peaksOf (generatorCall K (runHist K hist) c req z carrier) = brainVariants K c req z carrier := by
+  apply history_pure hwf
+  · intro q hq x hx
+    unfold histElems
+    apply List.mem_append_left
+    exact List.mem_flatMap.mpr ⟨q, hq, List.mem_map.mpr ⟨x, hx, rfl⟩⟩
+  · intro x hx
+    unfold histElems
+    apply List.mem_append_right
+    exact List.mem_map.mpr ⟨x, hx, rfl⟩
+
+/-- `deterministic`: the stateless function is a function of its arguments, and the result of a
+    generator call does not depend on the cache contents at all beyond the invariant -/
+theorem deterministic {K : BrainConsts} {T : List Elem} (hT : SymInj T) {cache1 cache2 : Cache}
+    (h1 : CacheInv K T cache1) (h2 : CacheInv K T cache2) {c : BComp} (hc : CompOK T c)
+    (req : PeakReq) (z : Int) (carrier : Rat) :
+    peaksOf (generatorCall K cache1 c req z carrier) = peaksOf (generatorCall K cache2 c req z carrier) := by
+  rw [call_pure hT h1 hc, call_pure hT h2 hc]
+
+theorem brainVariants_fun {K : BrainConsts} {c c' : BComp} {req req' : PeakReq} {z z' : Int} {carrier carrier' : Rat}
+    (h1 : c = c') (h2 : req = req') (h3 : z = z') (h4 : carrier = carrier') :
+    brainVariants K c req z carrier = brainVariants K c' req' z' carrier' := by
+  subst h1 h2 h3 h4; rfl
+
+/-! the same when a failed call may lose cache entries (e.g. the constants checked out before a panic) -/
+
+def stepCacheWith (K : BrainConsts) (onFail : Cache → Call → Cache) (cache : Cache) (q : Call) : Cache :=
+  match generatorCall K cache q.1 q.2.1 q.2.2.1 q.2.2.2 with
+  | .ok (_, cache') => cache'
+  | _ => onFail cache q
+
+theorem history_pure_anyfail {K : BrainConsts} {T : List Elem} (hT : SymInj T)
+    (onFail : Cache → Call → Cache) (hfail : ∀ cache q, ∀ p ∈ onFail cache q, p ∈ cache)
+    (hist : List Call) (hh : ∀ q ∈ hist, CompOK T q.1) {c : BComp} (hc : CompOK T c)
+    (req : PeakReq) (z : Int) (carrier : Rat) :
+    peaksOf (generatorCall K (hist.foldl (stepCacheWith K onFail) []) c req z carrier)
+      = brainVariants K c req z carrier := by
+  apply call_pure hT _ hc
+  have : ∀ (hist : List Call) (cache : Cache), CacheInv K T cache → (∀ q ∈ hist, CompOK T q.1) →
+      CacheInv K T (hist.foldl (stepCacheWith K onFail) cache) := by
+    intro hist
+    induction hist with
+    | nil => intro _ h _; exact h
+    | cons q qs ih =>
+      intro cache h hq
+      simp only [List.foldl_cons]
+      apply ih _ _ (fun r hr => hq r (List.mem_cons_of_mem _ hr))
+      unfold stepCacheWith
+      split
+      · rename_i hcall; exact call_inv hT h (hq q List.mem_cons_self) hcall
+      · intro p hp; exact h p (hfail _ _ p hp)
+  exact this hist [] (fun p hp => by cases hp) hh
+
+/-! ### 8. non-vacuity: small hand-made elements, checked by kernel evaluation -/
+
+instance (T : List Elem) : Decidable (SymInj T) := by unfold SymInj; infer_instance
+instance (T : List Elem) (c : BComp) : Decidable (CompOK T c) := by unfold CompOK; infer_instance
+
+namespace C08Ex
+
+def K : BrainConsts :=
+  { one := 1000000, lambdaFactor := 1800, maxIter := 255, guessCap := 300,
+    guessFraction := 9999/10000, cut := 1/10000000000 }
+
+/-- hydrogen-like: two isotopes -/
+def H : Elem :=
+  { tkey := [72], sym := [72], isos := [⟨1, 1007825, 999885, 1, 0⟩, ⟨2, 2014102, 115, 2, 1⟩],
+    mostIso := 1, mostMass := 1007825, minShift := 0, maxShift := 1, elemNum := 1 }
+
+/-- carbon-like: two isotopes (`elemNum` chosen so that the key walk of `isotopic_coefficients` meets them) -/
+def X : Elem :=
+  { tkey := [88], sym := [88], isos := [⟨12, 12000000, 989300, 12, 0⟩, ⟨13, 13003355, 10700, 13, 1⟩],
+    mostIso := 12, mostMass := 12000000, minShift := 0, maxShift := 1, elemNum := 12 }
+
+/-- a different element under the same symbol -/
+def X' : Elem := { X with isos := [⟨12, 12000000, 500000, 12, 0⟩, ⟨13, 13003355, 500000, 13, 1⟩] }
+
+/-- an element whose coefficient vector (length 1) is shorter than its `maxShift` (3) -/
+def Bad : Elem :=
+  { tkey := [66], sym := [66], isos := [⟨1, 1000000, 1000000, 1, 3⟩],
+    mostIso := 1, mostMass := 1000000, minShift := 0, maxShift := 3, elemNum := 4 }
+
+def T : List Elem := [H, X, Bad]
+
+def hist1 : List Call := [([(H, 2)], .fixed 2, 0, 0), ([(X, 6), (H, 10)], .fixed 9, 2, 1)]
+def hist2 : List Call := [([(X, 1), (H, 4)], .guess, 1, 1), ([(H, 1)], .fixed 1, 1, 1), ([(Bad, 4)], .fixed 1, 0, 0),
+   ([(Bad, 4)], .fixed 3, 0, 0)]
+
+example : SymInj T := by decide +kernel
+example : ElemOK K H ∧ ElemOK K X ∧ ¬ ElemOK K Bad := by decide +kernel
+example : ∀ q ∈ hist1 ++ hist2, CompOK T q.1 := by decide +kernel
+
+/-- the two histories leave different caches … -/
+example : (runHist K hist1).map (fun p => (p.1, p.2.order)) = [([88], 10), ([72], 9)] ∧
+    (runHist K hist2).map (fun p => (p.1, p.2.order)) = [([88], 4), ([72], 4), ([66], 3)] := by decide +kernel
+
+/-- … and the same call returns, after either, what the stateless function returns: three peaks -/
+example : peaksOf (generatorCall K (runHist K hist1) [(X, 2), (H, 6)] (.fixed 3) 1 1)
+    = brainVariants K [(X, 2), (H, 6)] (.fixed 3) 1 1 := by decide +kernel
+example : peaksOf (generatorCall K (runHist K hist2) [(X, 2), (H, 6)] (.fixed 3) 1 1)
+    = brainVariants K [(X, 2), (H, 6)] (.fixed 3) 1 1 := by decide +kernel
+example : (brainVariants K [(X, 2), (H, 6)] (.fixed 3) 1 1).bind (fun pk => .ok pk.length) = .ok 3 := by
+  decide +kernel
+
+/-- an element without `ElemOK` stays unextended in the cache; the failing call fails either way -/
+example : peaksOf (generatorCall K (runHist K hist2) [(Bad, 4)] (.fixed 3) 0 0) = .panic ∧
+    brainVariants K [(Bad, 4)] (.fixed 3) 0 0 = .panic := by decide +kernel
+
+/-- the instances above are instances of the theorem -/
+example : peaksOf (generatorCall K (runHist K hist1) [(X, 2), (H, 6)] (.fixed 3) 1 1)
+    = brainVariants K [(X, 2), (H, 6)] (.fixed 3) 1 1 :=
+  history_pure (T := T) (by decide +kernel) hist1 (by decide +kernel) (by decide +kernel) _ _ _
+
+/-- the hypothesis "the symbol determines the element" cannot be dropped: after a call with another
+    element under the same symbol the generator answers with the wrong constants -/
+example : peaksOf (generatorCall K (runHist K [([(X', 2)], .fixed 3, 1, 1)]) [(X, 2)] (.fixed 3) 1 1)
+    ≠ brainVariants K [(X, 2)] (.fixed 3) 1 1 := by decide +kernel
+
+end C08Ex
+
 end Chem
